@@ -537,6 +537,12 @@ func (g *gen) stmt() {
 	if g.depth > 3 {
 		maxKind = 6
 	}
+	// struct statements (literals, field stores, methods, value copies) get
+	// extra weight: value semantics of structs is a large part of the core
+	if len(g.strs) > 0 && g.chance("structy", 10) {
+		g.structStmt()
+		return
+	}
 	switch g.pick("stmt", maxKind) {
 	case 16, 17:
 		if g.noTry {
